@@ -23,6 +23,8 @@ import (
 //
 // Memory oracle (random part): bytes allocated during one decode (runtime.MemStats.TotalAlloc delta)
 //   <= c08Base + c08PerByte[format] * len(document) + 4 * MaxArraySizeBytes.
+// Allocation-scaling oracle (deterministic part): for every document family, bytes allocated at n, 2n, 4n,
+// 8n; more than tripling on each of the last two doublings (log-log slope >= 1.5, >= 8 MiB) is a violation.
 // Time oracle (deterministic part): for every document family, CPU time at n, 2n, 4n, 8n; the log-log
 // slope must stay below 1.8 (re-measured over five doublings, where the last two doublings must each cost >= 3x, before it is called a violation; 1.5..1.8 is reported
 // as inconclusive, never as a violation).
@@ -245,6 +247,56 @@ var c08Families = func() []c08Family {
 		{name: "cte-media-hex", format: "cte", timing: true, maxN: 1 << 17, build: func(n int, _ []byte) []byte {
 			return []byte("c0\n@application/x[" + rep("0a ", n) + "]")
 		}},
+		{name: "cte-escapes-in-one-string", format: "cte", timing: true, maxN: 1 << 17, build: func(n int, _ []byte) []byte {
+			return []byte("c0\n\"" + rep("a\\n", n) + "\"")
+		}},
+		{name: "cte-escapes-in-one-resource-id", format: "cte", timing: true, maxN: 1 << 16, build: func(n int, _ []byte) []byte {
+			return []byte("c0\n@\"" + rep("a\\[e9]\\t", n) + "\"")
+		}},
+		{name: "cte-many-strings-with-an-escape", format: "cte", timing: true, maxN: 1 << 15, build: func(n int, _ []byte) []byte {
+			return []byte("c0\n[" + rep("\"a\\n\" ", n) + "]")
+		}},
+		// record type with n keys, then n records begun inside one another (each as the first field of the
+		// enclosing one): what a record reserves up front must not depend on the key count
+		{name: "cbe-many-keys-nested-records", format: "cbe", timing: true, maxN: 1 << 15, build: func(n int, _ []byte) []byte {
+			out := []byte{0x7f, 0xf1, 0x01, 'r'}
+			for i := 0; i < n; i++ {
+				out = append(out, 0x6c, byte(i), byte(i>>8), byte(i>>16), byte(i>>24))
+			}
+			out = append(out, 0x9b)
+			return cbeDoc(out, repB([]byte{0x96, 0x01, 'r'}, n), []byte{1})
+		}},
+		{name: "cte-many-keys-nested-records", format: "cte", timing: true, maxN: 1 << 12, build: func(n int, _ []byte) []byte {
+			var b strings.Builder
+			b.WriteString("c0\n@r<")
+			for i := 0; i < n; i++ {
+				fmt.Fprintf(&b, "%d ", i)
+			}
+			b.WriteString(">\n" + rep("@r{", n) + "1")
+			return []byte(b.String())
+		}},
+		{name: "cte-record-many-values", format: "cte", timing: true, maxN: 1 << 14, build: func(n int, _ []byte) []byte {
+			var b strings.Builder
+			b.WriteString("c0\n@r<")
+			for i := 0; i < n; i++ {
+				fmt.Fprintf(&b, "%d ", i)
+			}
+			b.WriteString(">\n@r{" + rep("1 ", n) + "}")
+			return []byte(b.String())
+		}},
+		{name: "cte-nested-records-closed", format: "cte", timing: true, maxN: 1 << 12, build: func(n int, _ []byte) []byte {
+			return []byte("c0\n@r<1 2 3>\n" + rep("@r{", n) + "1" + rep(" 1 1}", n))
+		}},
+		{name: "cbe-many-record-types", format: "cbe", timing: true, maxN: 1 << 15, build: func(n int, _ []byte) []byte {
+			var out []byte
+			for i := 0; i < n; i++ {
+				id := fmt.Sprintf("r%d", i)
+				out = append(out, 0x7f, 0xf1, byte(len(id)))
+				out = append(out, id...)
+				out = append(out, 0x01, 0x9b)
+			}
+			return cbeDoc(out, []byte{1})
+		}},
 	}
 	return fams
 }()
@@ -360,6 +412,56 @@ func c08Slope(f *c08Family, pipeline string, steps int) c08Timing {
 	return r
 }
 
+// c08AllocScaling measures the bytes allocated by one decode at n, 2n, 4n and 8n (each document is
+// decoded once before it is measured, so that lazily built caches are not charged) and the log-log
+// slope between the first and the last. Allocation counts, unlike times, do not depend on the load of
+// the machine.
+type c08Scaling struct {
+	Family   string   `json:"family"`
+	Pipeline string   `json:"pipeline"`
+	N        int      `json:"n"`
+	DocBytes []int    `json:"doc_bytes"`
+	Alloc    []uint64 `json:"alloc_bytes"`
+	Slope    float64  `json:"alloc_log_log_slope"`
+	Verdict  string   `json:"verdict"`
+}
+
+func c08AllocScaling(f *c08Family, pipeline string, thorough bool) (r c08Scaling, timedOut bool) {
+	cfg := c08Config(64 << 20)
+	n := 512
+	if thorough {
+		n = 2048
+	}
+	for n*8 > f.maxN && n > 1 {
+		n /= 2
+	}
+	r = c08Scaling{Family: f.name, Pipeline: pipeline, N: n}
+	for s := 0; s < 4; s++ {
+		doc := f.build(n<<uint(s), nil)
+		if _, to := c08Alloc(f.format, pipeline, doc, cfg); to {
+			return r, true
+		}
+		a, to := c08Alloc(f.format, pipeline, doc, cfg)
+		if to {
+			return r, true
+		}
+		r.DocBytes = append(r.DocBytes, len(doc))
+		r.Alloc = append(r.Alloc, a)
+	}
+	first, last := float64(r.Alloc[0]), float64(r.Alloc[3])
+	if first < 4096 {
+		first = 4096
+	}
+	r.Slope = math.Log2(last/first) / 3
+	r.Verdict = "linear"
+	// quadratic growth quadruples the allocation with every doubling; anything that still more than
+	// triples on each of the last two doublings, and is not small, is not "a fixed multiple of the length"
+	if r.Slope >= 1.5 && r.Alloc[3] >= 8<<20 && float64(r.Alloc[3]) >= 3*float64(r.Alloc[2]) && float64(r.Alloc[2]) >= 3*float64(r.Alloc[1]) {
+		r.Verdict = "super-linear"
+	}
+	return r, false
+}
+
 func genC08(t *rapid.T, ctx *Ctx) interface{} {
 	f := c08Families[rapid.IntRange(0, len(c08Families)-1).Draw(t, "family")]
 	if key := c08KnownFamilies[f.name]; key != "" && harness.Open(key) {
@@ -407,6 +509,21 @@ func init() {
 						ctx.Stats.Exclude(key)
 						continue
 					}
+					if sc, to := c08AllocScaling(f, pipeline, ctx.Thorough()); !to {
+						ctx.Stats.Count("alloc-scaling:"+sc.Verdict, 1)
+						ctx.Stats.Bulk(int64(len(sc.Alloc)), 1)
+						if sc.Slope > 1.15 {
+							ctx.Stats.Note(fmt.Sprintf("alloc-scaling slope above 1.15: %s (%s) %.2f, bytes allocated %v for documents of %v bytes", f.name, pipeline, sc.Slope, sc.Alloc, sc.DocBytes))
+						}
+						if f.name == "cte-escapes-in-one-string" || f.name == "cbe-many-keys-nested-records" {
+							ctx.Stats.AddSample(sc)
+						}
+						if sc.Verdict == "super-linear" {
+							report(&C08Case{Family: f.name, N: sc.N, Pipeline: pipeline, MaxArray: 64 << 20, Mode: "alloc"},
+								fmt.Errorf("allocation of family %s (%s) grows faster than linearly with the document: %v bytes allocated for document sizes %v (log-log slope %.2f)", f.name, pipeline, sc.Alloc, sc.DocBytes, sc.Slope))
+							return
+						}
+					}
 					r := c08Slope(f, pipeline, 4)
 					switch {
 					case r.Slope < 1.5:
@@ -441,6 +558,17 @@ func init() {
 				return fmt.Errorf("harness: unknown family %q", c.Family)
 			}
 			c08Warm()
+			if c.Mode == "alloc" {
+				sc, to := c08AllocScaling(f, c.Pipeline, ctx.Thorough())
+				if to {
+					ctx.Hung = true
+					return fmt.Errorf("decoding documents of family %s did not finish within the deadline", c.Family)
+				}
+				if sc.Verdict == "super-linear" {
+					return fmt.Errorf("allocation of family %s (%s) grows faster than linearly with the document: %v bytes allocated for document sizes %v (log-log slope %.2f)", f.name, c.Pipeline, sc.Alloc, sc.DocBytes, sc.Slope)
+				}
+				return nil
+			}
 			if c.Mode == "time" {
 				r := c08Slope(f, c.Pipeline, 5)
 				k := len(r.Millis)
